@@ -120,27 +120,25 @@ func c09PipeRun(e *vEnv, c c09PipeCase) (key, msg string, classes []string) {
 		}
 		return false
 	}
-	drained := func() bool { return len(rm.ingestChan) == 0 }
+	dupCount := func() int64 { return atomic.LoadInt64(&rm.RegistrationStats.newDupRegistrations) }
 	if !send(c09Msg(0)) {
 		return "stall:distributor", "the distributor did not accept the first message", classes
 	}
 	sent++
+	if !waitFor(func() bool { return gate.Waiting() >= 1 }) {
+		return "harness", "first worker never reached its probe", classes
+	}
+	// duplicates of message 0 (now tracked): each must be consumed by a worker (counted as a
+	// duplicate) before the next message is sent, because the hand-off is non-blocking by design
+	// and a message arriving while the shallow buffer still holds the previous one is dropped.
 	for i := 0; i < c.Dups; i++ {
-		// the hand-off is non-blocking: a message arriving while the shallow buffer still holds the
-		// previous one is dropped by design, so wait until a worker has taken it
-		if !waitFor(drained) {
-			return "harness", "buffer did not drain", classes
-		}
 		if !send(c09Msg(0)) {
 			return "stall:distributor", "the distributor did not accept a duplicate message", classes
 		}
 		sent++
-	}
-	if !waitFor(drained) {
-		return "harness", "buffer did not drain", classes
-	}
-	if !waitFor(func() bool { return gate.Waiting() >= 1 }) {
-		return "harness", "first worker never reached its probe", classes
+		if !waitFor(func() bool { return dupCount() >= int64(i+1) }) {
+			return "harness", fmt.Sprintf("duplicate %d was not processed (dups=%d)", i, dupCount()), classes
+		}
 	}
 	for i := 1; i < c.Workers; i++ {
 		if !send(c09Msg(i)) {
@@ -151,10 +149,6 @@ func c09PipeRun(e *vEnv, c c09PipeCase) (key, msg string, classes []string) {
 			return "harness", fmt.Sprintf("worker %d never reached its probe (waiting=%d)", i, gate.Waiting()), classes
 		}
 	}
-	// wait until duplicates have been consumed by some worker (they do not park): the buffer must be empty
-	if !waitFor(func() bool { return len(rm.ingestChan) == 0 }) {
-		return "harness", "buffer did not drain before the overload phase", classes
-	}
 	// 2. fill the shallow buffer, then send the excess: each send must complete promptly
 	for i := 0; i < buffer+c.Excess; i++ {
 		if !send(c09Msg(1000 + i)) {
@@ -162,16 +156,23 @@ func c09PipeRun(e *vEnv, c c09PipeCase) (key, msg string, classes []string) {
 		}
 		sent++
 	}
-	// the distributor counts a message before it decides: give it a moment to finish the last one
+	// the distributor handles messages one after another: once the outcome of the last message is
+	// visible (dropped, or sitting in the buffer) every earlier outcome is final
 	wantDropped := int64(c.Excess)
-	if !waitFor(func() bool {
-		return rm.RegistrationStats.totalIngestMessagesForVerif() >= int64(sent)
-	}) {
-		return "ingest-count", fmt.Sprintf("sent %d messages, pipeline counted %d", sent, rm.RegistrationStats.totalIngestMessagesForVerif()), classes
+	settled := func() bool {
+		if c.Excess > 0 {
+			return rm.RegistrationStats.droppedForVerif() >= wantDropped
+		}
+		return len(rm.ingestChan) >= buffer || rm.RegistrationStats.droppedForVerif() > 0
 	}
-	time.Sleep(2 * time.Millisecond)
+	if !waitFor(settled) {
+		return "dropped-count", fmt.Sprintf("%d workers busy, buffer %d, %d excess messages sent: dropped counter stays at %d, expected %d", c.Workers, buffer, c.Excess, rm.RegistrationStats.droppedForVerif(), wantDropped), classes
+	}
 	if got := rm.RegistrationStats.droppedForVerif(); got != wantDropped {
 		return "dropped-count", fmt.Sprintf("%d workers busy, buffer %d full, %d excess messages: dropped counter is %d, expected %d", c.Workers, buffer, c.Excess, got, wantDropped), classes
+	}
+	if got := rm.RegistrationStats.totalIngestMessagesForVerif(); got != int64(sent) {
+		return "ingest-count", fmt.Sprintf("sent %d messages, pipeline counted %d", sent, got), classes
 	}
 	if c.Excess > 0 {
 		classes = append(classes, "overload")
